@@ -126,6 +126,10 @@ class Repeat(addons.AddonMainTask, block.SBlock):
                     data = await asyncio.wait_for(self._queue.get(), self._interval)
                     repeat = 0
                 except asyncio.TimeoutError:
+                    if not self._queue.empty():
+                        # a new event has arrived at the very moment of the timeout and
+                        # was already forwarded; do not re-send the old one after it
+                        continue
                     repeat += 1
 
             if repeat > 0:  # skip the original event
